@@ -55,6 +55,15 @@ type Explorer struct {
 	// AutoAdvance lets virtual time jump to the next timer when nothing is enabled.
 	AutoAdvance bool
 	HorizonNs   int64 // virtual-time horizon for AutoAdvance
+	// Deviations: every departure from the default choice costs one unit of Bound, also at points
+	// where the running thread is blocked (iterative deviation bounding instead of preemption
+	// bounding: for long executions with many blocking points - connection handlers, parser
+	// goroutines, channel rendezvous - the free choices at blocking points alone are exponentially
+	// many).  The default choice is: keep running; when blocked, the lowest thread id.
+	Deviations bool
+	// Shard / Of split the search between processes: the schedules below the k-th first-level
+	// alternative belong to shard k mod Of; the default schedule itself to shard 0.  Of = 0: no split.
+	Shard, Of int
 }
 
 // Run executes one schedule: prefix is replayed (a choice out of range is a hard error), then
@@ -153,6 +162,7 @@ func (e *Explorer) Run(mk func() *Instance, prefix []int) (*Instance, *Outcome, 
 func (e *Explorer) Explore(mk func() *Instance, visit func(in *Instance, out *Outcome) bool) Stats {
 	var st Stats
 	stop := false
+	firstLevel := 0
 	var rec func(prefix []int)
 	rec = func(prefix []int) {
 		if stop {
@@ -163,32 +173,48 @@ func (e *Explorer) Explore(mk func() *Instance, visit func(in *Instance, out *Ou
 			return
 		}
 		in, out, pts := e.Run(mk, prefix)
-		st.Schedules++
-		if out.Preempted > 0 {
-			st.Preemptive++
-		}
-		if len(pts) > st.MaxPoints {
-			st.MaxPoints = len(pts)
-		}
-		cont := visit(in, out)
-		in.World.Kill()
-		if in.Close != nil {
-			in.Close()
-		}
-		if !cont {
-			stop = true
-			return
+		mine := e.Of <= 1 || len(prefix) > 0 || e.Shard == 0
+		if !mine {
+			// another shard judges the default schedule; it is only run here to learn its points
+			in.World.Kill()
+			if in.Close != nil {
+				in.Close()
+			}
+		} else {
+			st.Schedules++
+			if out.Preempted > 0 {
+				st.Preemptive++
+			}
+			if len(pts) > st.MaxPoints {
+				st.MaxPoints = len(pts)
+			}
+			cont := visit(in, out)
+			in.World.Kill()
+			if in.Close != nil {
+				in.Close()
+			}
+			if !cont {
+				stop = true
+				return
+			}
 		}
 		cost := 0
 		for i := 0; i < len(pts); i++ {
 			if i >= len(prefix) {
 				for alt := 1; alt < pts[i].n; alt++ {
 					c := cost
-					if pts[i].runningEnabled {
+					if pts[i].runningEnabled || e.Deviations {
 						c++
 					}
 					if c > e.Bound {
 						continue
+					}
+					if e.Of > 1 && len(prefix) == 0 {
+						k := firstLevel
+						firstLevel++
+						if k%e.Of != e.Shard {
+							continue
+						}
 					}
 					np := make([]int, i+1)
 					for j := 0; j < i; j++ {
@@ -201,7 +227,7 @@ func (e *Explorer) Explore(mk func() *Instance, visit func(in *Instance, out *Ou
 					}
 				}
 			}
-			if pts[i].choice != 0 && pts[i].runningEnabled {
+			if pts[i].choice != 0 && (pts[i].runningEnabled || e.Deviations) {
 				cost++
 			}
 		}
